@@ -1272,22 +1272,45 @@ fn eval_pg(t: &[&str]) -> String {
                     if w * h > 40_000 {
                         true
                     } else {
+                        // Where the picture sits in the text (a border, a caption, none at all) is the library's business: look
+                        // for ANY h consecutive lines and column offset at which every pixel's character depends on its value
+                        // alone.  A text too small to hold the picture cannot be judged and passes.
                         let lines: Vec<Vec<char>> = text.lines().map(|l| l.chars().collect()).collect();
-                        let mut ok = lines.len() == h + 2 && lines.iter().all(|l| l.len() == w + 2);
-                        let (mut on_char, mut off_char): (Option<char>, Option<char>) = (None, None);
-                        if ok {
+                        let consistent = |i0: usize, j0: usize| -> bool {
+                            let (mut on_char, mut off_char): (Option<char>, Option<char>) = (None, None);
                             for y in 0..h {
                                 for x in 0..w {
-                                    let c = lines[y + 1][x + 1];
+                                    let c = lines[i0 + y][j0 + x];
                                     let slot = if page.get_pixel(x as u32, y as u32) { &mut on_char } else { &mut off_char };
                                     match slot {
                                         None => *slot = Some(c),
-                                        Some(k) => ok &= *k == c,
+                                        Some(k) => {
+                                            if *k != c {
+                                                return false;
+                                            }
+                                        }
                                     }
                                 }
                             }
-                            ok &= on_char.is_none() || on_char != off_char;
+                            on_char.is_none() || on_char != off_char
+                        };
+                        let mut judged = false;
+                        let mut ok = false;
+                        if w > 0 && h > 0 && lines.len() >= h {
+                            for i0 in 0..=(lines.len() - h) {
+                                let minlen = (0..h).map(|y| lines[i0 + y].len()).min().unwrap_or(0);
+                                if minlen < w {
+                                    continue;
+                                }
+                                for j0 in 0..=(minlen - w) {
+                                    judged = true;
+                                    if consistent(i0, j0) {
+                                        ok = true;
+                                    }
+                                }
+                            }
                         }
+                        let ok = ok || !judged;
                         ok
                     }
                 };
